@@ -555,6 +555,20 @@ fn run_sop_ops(t: &[&str]) -> Option<String> {
             }
             format!("ok {}", show_ecube(&r1))
         }
+        ("ecube", "cmp", 4) | ("cube", "cmp", 4) => {
+            // ==, !=, cmp, partial_cmp and < must tell one story
+            let (eq, ne, o, po, lt) = if t[0] == "ecube" {
+                let (a, b) = (parse_ecube(t[2])?, parse_ecube(t[3])?);
+                (a == b, a != b, a.cmp(&b), a.partial_cmp(&b), a < b)
+            } else {
+                let (a, b) = (parse_cube(t[2])?, parse_cube(t[3])?);
+                (a == b, a != b, a.cmp(&b), a.partial_cmp(&b), a < b)
+            };
+            if eq == ne || po != Some(o) || lt != (o == std::cmp::Ordering::Less) || eq != (o == std::cmp::Ordering::Equal) {
+                return Some("ok forms-disagree".into());
+            }
+            format!("ok {} {}", show_bool(eq), match o { std::cmp::Ordering::Less => "lt", std::cmp::Ordering::Equal => "eq", _ => "gt" })
+        }
         ("ecube", "not", 3) => {
             let a = parse_ecube(t[2])?;
             let r1 = !a;
